@@ -129,6 +129,15 @@ CHECKS = {
             "same result and the digests of all opcode tables are unchanged.",
             "exceptions are results (type + message); addresses normalised; set element order not compared",
             "DESIGN.md §4 C18"),
+    "C11": ("systematic fault enumeration (every prefix / single-byte substitution of small valid files of every "
+            "version), Hypothesis structural mutations, adversarial marshal structures with lying length/reference "
+            "fields, and an atheris (libFuzzer) coverage-guided campaign; oracle inside the target: outcome in "
+            "{7-tuple, ImportError}, audit-hook events, CPU-time and tracemalloc bounds",
+            "On all explored hostile inputs load_module returns or raises ImportError promptly, without forbidden "
+            "audit events and within the memory bound - except the listed known findings of the built-in-marshal "
+            "fast path for files carrying the host's own magic.",
+            "stderr output allowed; CPU bound 2 s (<= 64 KiB) / 20 s with triple confirmation; memory bound sampled 1 in 16",
+            "DESIGN.md §4 C11"),
 }
 
 NOT_YET = {}
